@@ -12,11 +12,11 @@
   It does not decide panics or fatal errors in general, preemption inside a Go statement, weak-memory effects, real
   blocking times, or Go's writer preference on RWMutex.
 
-  Known racy fields are excluded EXPLICITLY from the table theorem and must really fail the check
-  (`known_racy_are_racy`), so the list cannot go stale:
-    storage.Manager.immutableMTs              D21  appended under mu, read/truncated under flushMu only
-    storage.Manager.wal                       D36  plain read under mu.RLock in GetWAL, atomic store under flushMu only
-    transaction.TransactionImpl.lastActiveTime D22 written under tx.mu, read under the registry lock only
+  History: on the tree before the repairs three fields failed the table check and raced under the detector
+  (D21 storage.Manager.immutableMTs, fixed b06fb7d; D39 storage.Manager.wal read in GetWAL, fixed 66945ef; D22
+  transaction.TransactionImpl.lastActiveTime, fixed 0084479) and Manager.Close ignored the flush goroutine (D40, fixed
+  3b93c94; Close is now part of the tables). No field is excluded any more; `historical_d21_race_witness` keeps the
+  old rows of immutableMTs as evidence that the check can fail.
 -/
 import Kevo.Proofs.ConcCore
 import Kevo.Proofs.ConcTable
@@ -48,40 +48,44 @@ theorem lockorder_progress (P : Prog) (rank : Lock → Nat) (N : Nat)
 def fieldId (name : String) : Nat := fieldNames.idxOf name
 def lockId (name : String) : Nat := lockNames.idxOf name
 
-def knownRacyNames : List String :=
-  ["storage.Manager.immutableMTs", "storage.Manager.wal", "transaction.TransactionImpl.lastActiveTime"]
-
-def knownRacy : List Nat := knownRacyNames.map fieldId
+/-- fields whose protection mixes sync/atomic with a lock: `Manager.wal` is stored atomically (under flushMu), loaded
+    atomically by getWAL without a lock, and read plainly only under flushMu — pairwise check only. -/
+def mixedNames : List String := ["storage.Manager.wal"]
+def mixed : List Nat := mixedNames.map fieldId
 
 set_option maxRecDepth 8192 in
-theorem table_fields_ok : ∀ f ∈ fields, f ∉ knownRacy → fieldOK sites f = true := by decide
+theorem table_fields_ok : ∀ f ∈ fields, fieldOK sites f = true := by decide
 
-/-- data-race freedom on every enumerated field except the known racy ones, for every conforming program. -/
-theorem fields_race_free : ∀ f ∈ fields, f ∉ knownRacy →
+/-- data-race freedom on EVERY enumerated field, for every conforming program (instance of `pairwise_drf`). -/
+theorem fields_race_free : ∀ f ∈ fields,
     ∀ P, Conforms sites P → ∀ sched s, reach P sched = some s → ¬ Race P s f :=
-  fun f hf hk P hc => table_drf sites f (table_fields_ok f hf hk) P hc
+  fun f hf P hc => table_drf sites f (table_fields_ok f hf) P hc
 
 set_option maxRecDepth 8192 in
-theorem table_discipline_ok : ∀ f ∈ fields, f ∉ knownRacy → disciplineOK sites lockNames.length f = true := by
+theorem table_discipline_ok : ∀ f ∈ fields, f ∉ mixed → disciplineOK sites lockNames.length f = true := by
   decide
 
 /-- the same through the classic lock-set discipline (one lock held at every site, exclusively at writes; or all
-    accesses atomic) — instance of `lockset_drf`. -/
-theorem fields_lockset_discipline : ∀ f ∈ fields, f ∉ knownRacy →
+    accesses atomic) — instance of `lockset_drf`; every field except the mixed atomic/lock one. -/
+theorem fields_lockset_discipline : ∀ f ∈ fields, f ∉ mixed →
     ∀ P, Conforms sites P → ∀ sched s, reach P sched = some s → ¬ Race P s f :=
-  fun f hf hk P hc => table_lockset_drf sites lockNames.length f (table_discipline_ok f hf hk) P hc
+  fun f hf hm P hc => table_lockset_drf sites lockNames.length f (table_discipline_ok f hf hm) P hc
 
 set_option maxRecDepth 8192 in
-/-- every excluded field is a tracked field and really fails the check (the exclusion list cannot go stale). -/
-theorem known_racy_are_racy : ∀ f ∈ knownRacy, f ∈ fields ∧ fieldOK sites f = false := by decide
+/-- the mixed list is not padding: each of its fields is a tracked field and really fails the classic discipline. -/
+theorem mixed_are_mixed : ∀ f ∈ mixed, f ∈ fields ∧ disciplineOK sites lockNames.length f = false := by decide
 
-set_option maxRecDepth 8192 in
-/-- D21 as a schedule: a program that conforms to the table and reaches a state with a race on immutableMTs
-    (scheduleFlush appends under `mu`, FlushMemTables truncates under `flushMu`). -/
-theorem immutableMTs_race_witness :
-    ∃ P, Conforms sites P ∧ ∃ sched s, reach P sched = some s ∧ Race P s (fieldId "storage.Manager.immutableMTs") :=
-  race_of_disjoint_writers sites (fieldId "storage.Manager.immutableMTs")
-    (lockId "storage.Manager.mu") (lockId "storage.Manager.flushMu") (by decide) (by decide) (by decide)
+/-- the rows of storage.Manager.immutableMTs BEFORE b06fb7d (D21): scheduleFlush wrote under mu (lock 1),
+    FlushMemTables truncated under flushMu (lock 0). -/
+def d21Sites : List Site :=
+  [{ field := 0, write := true, atomic := false, held := [(1, .ex)] },
+   { field := 0, write := true, atomic := false, held := [(0, .ex)] },
+   { field := 0, write := false, atomic := false, held := [(1, .sh)] }]
+
+/-- the check can fail, and a failing table has a conforming program with a reachable race. -/
+theorem historical_d21_race_witness : fieldOK d21Sites 0 = false ∧
+    ∃ P, Conforms d21Sites P ∧ ∃ sched s, reach P sched = some s ∧ Race P s 0 :=
+  ⟨by decide, race_of_disjoint_writers d21Sites 0 1 0 (by decide) (by decide) (by decide)⟩
 
 set_option maxRecDepth 8192 in
 theorem lock_order_ranked : ranksOK edges ranks = true := by decide
@@ -116,6 +120,7 @@ theorem unknowns_table : unknownLocks = [] ∧ unknownCalls =
     that exercises a protected field from two threads. -/
 example : sites.length > 40 ∧ edges.length > 20 ∧ fields.length = fieldNames.length := by decide
 example : (rowsOf sites (fieldId "storage.Manager.sstables")).any (·.write) = true := by decide
-example : fieldId "storage.Manager.sstables" ∈ fields ∧ fieldId "storage.Manager.sstables" ∉ knownRacy := by decide
+example : fieldId "storage.Manager.immutableMTs" ∈ fields ∧ fieldId "storage.Manager.wal" ∈ fields ∧
+    fieldId "transaction.TransactionImpl.lastActiveTime" ∈ fields := by decide
 
 end Kevo.Props.C07
